@@ -199,3 +199,82 @@ theorem reqProcessBodyData_rc (cfg : Cfg) (data : Option Bytes) (g : Nat) (c : C
       · simp [h2]
 
 end Htp.Conn
+
+namespace Htp.Conn
+open Htp.Gen
+
+/-- callbacks other than TRANSACTION_COMPLETE cannot even clear a tx reference: both direction records are untouched -/
+theorem runCallback_dirs (h : Hook) (uid : Option Nat) (data : Option Bytes) (isLast : Bool) (c : Conn) (g : Nat) (s : Bool)
+    (hne : h ≠ .transactionComplete) :
+    (runCallback h uid data isLast c g s).1.inn = c.inn ∧ (runCallback h uid data isLast c g s).1.out = c.out ∧
+    (runCallback h uid data isLast c g s).1.txs.length = c.txs.length := by
+  unfold runCallback
+  simp only
+  cases lookupAction c.policy c.cbCount with
+  | ok => exact ⟨rfl, rfl, rfl⟩
+  | declined => exact ⟨rfl, rfl, rfl⟩
+  | stop => exact ⟨rfl, rfl, rfl⟩
+  | error => exact ⟨rfl, rfl, rfl⟩
+  | destroyTx =>
+    simp only
+    cases uid.bind c.findTx with
+    | none => exact ⟨rfl, rfl, rfl⟩
+    | some t =>
+      simp only
+      have : (h == Hook.transactionComplete) = false := by
+        cases h <;> first | rfl | exact absurd rfl hne
+      simp [this]
+  | regTxHooks =>
+    simp only
+    cases uid with
+    | none => exact ⟨rfl, rfl, rfl⟩
+    | some u => simp [Conn.modTx]
+
+end Htp.Conn
+
+namespace Htp.Conn
+open Htp.Gen
+
+/-- no callback can touch the parser's scalar bookkeeping -/
+theorem runCallback_scalars (h : Hook) (uid : Option Nat) (data : Option Bytes) (isLast : Bool) (c : Conn) (g : Nat) (s : Bool) :
+    (runCallback h uid data isLast c g s).1.outNextTxIndex = c.outNextTxIndex ∧
+    (runCallback h uid data isLast c g s).1.inState = c.inState ∧
+    (runCallback h uid data isLast c g s).1.outState = c.outState ∧
+    (runCallback h uid data isLast c g s).1.connFlags = c.connFlags ∧
+    (runCallback h uid data isLast c g s).1.inDataCounter = c.inDataCounter ∧
+    (runCallback h uid data isLast c g s).1.outDataCounter = c.outDataCounter := by
+  unfold runCallback
+  simp only
+  cases lookupAction c.policy c.cbCount with
+  | ok => exact ⟨rfl, rfl, rfl, rfl, rfl, rfl⟩
+  | declined => exact ⟨rfl, rfl, rfl, rfl, rfl, rfl⟩
+  | stop => exact ⟨rfl, rfl, rfl, rfl, rfl, rfl⟩
+  | error => exact ⟨rfl, rfl, rfl, rfl, rfl, rfl⟩
+  | destroyTx =>
+    simp only
+    cases uid.bind c.findTx with
+    | none => exact ⟨rfl, rfl, rfl, rfl, rfl, rfl⟩
+    | some t => simp only; split <;> exact ⟨rfl, rfl, rfl, rfl, rfl, rfl⟩
+  | regTxHooks =>
+    simp only
+    cases uid with
+    | none => exact ⟨rfl, rfl, rfl, rfl, rfl, rfl⟩
+    | some u => exact ⟨rfl, rfl, rfl, rfl, rfl, rfl⟩
+
+/-- htp_tx_state_response_start attaches the response direction to `uid` and leaves the pairing index alone,
+    whatever the RESPONSE_START callback does -/
+theorem txStateResponseStart_attach (uid : Nat) (c : Conn) :
+    (txStateResponseStart uid c).1.out.tx = some uid ∧ (txStateResponseStart uid c).1.outNextTxIndex = c.outNextTxIndex := by
+  unfold txStateResponseStart
+  simp only
+  have hd := runCallback_dirs .responseStart (some uid) none false { c with out := { c.out with tx := some uid } } 0 false (by decide)
+  have hs := runCallback_scalars .responseStart (some uid) none false { c with out := { c.out with tx := some uid } } 0 false
+  unfold R.andThen
+  split
+  · simp only
+    split
+    · exact ⟨by simp [Conn.modTx, hd.2.1], by simp [Conn.modTx, hs.1]⟩
+    · exact ⟨by simp [Conn.modTx, hd.2.1], by simp [Conn.modTx, hs.1]⟩
+  · exact ⟨by rw [hd.2.1], by rw [hs.1]⟩
+
+end Htp.Conn
